@@ -88,6 +88,19 @@ def gen(seed, tier):
             m = c10.ambiguous_50_60(g) if k < 0.4 else c10.clean_reg(g, r.choice(["40", "50", "60"]))
             segs.append(seg(0, [g.f_long(r.choice([20, 21]), icao, None, m)]))
         cases.append(H("C11-b%d" % i, o, segs))
+    # an aircraft's own frame triggers the sweep after a silence beyond --delete-after: refreshed first, the row keeps every
+    # parameter the frame does not carry (callsign, squawk, altitude ...)
+    for i in range(8 if tier == "quick" else 80):
+        pool = r.sample(ICAOS, 4)
+        tgt = pool[0]
+        d = r.choice([1, 5])
+        o = {"d": d}
+        if i % 2:
+            o["U"] = 1
+        know = [g.f_df17(tgt, me_ident(4, 3, [ia5_code(c) for c in "KEEPME12"])), g.f_short(5, tgt), g.f_short(4, tgt, (r.getrandbits(14) << 13) | 0x0C38 | 0x10)]
+        refresher = r.choice([g.f_df11(tgt), g.f_df17(tgt, g.me_velocity(1)), g.f_long(20, tgt, None, 0)])
+        segs = [seg(0, [x]) for x in know] + [seg(d * 1000 + 500, [g.f_df11(r.choice(pool[1:])) for _ in range(11)] + [refresher])]
+        cases.append(H("C11-k%d" % i, o, segs))
     n = 220 if tier == "quick" else 2500
     for i in range(n):
         pool = r.sample(ICAOS, r.randint(1, 4))
@@ -120,6 +133,16 @@ def oracle(parts, outcome, obs):
     use_u = opts.get("U") == "1"
     segs = pyspec.case_segments(parts)
     osegs = obs.split("#")
+    if parts[0].startswith("C11-k"):
+        tgt = pyspec.frame_of_line(segs[0][1][0])[1]
+        before = pyspec.rows_of(osegs[len(segs) - 2]).get(tgt, {}) if len(osegs) == len(segs) else {}
+        after = pyspec.rows_of(osegs[-1]).get(tgt) if len(osegs) == len(segs) else None
+        if after is None:
+            return "the aircraft whose own frame triggered the sweep is not in the table"
+        lost = [f for f in ("ais", "sq", "cat") if after.get(f) != before.get(f)]
+        if lost:
+            return "the aircraft's own frame triggered the sweep: the row lost %s (re-created instead of refreshed)" % ", ".join("%s %s -> %s" % (f, before.get(f), after.get(f)) for f in lost)
+        return None
     prev = {}
     prev_frame = None
     prev_t = None
